@@ -69,6 +69,10 @@ pub struct Tcp2Cfg {
     /// Checksum::Rx: the stack still verifies what it receives); the harness plays the device
     /// and fills the checksum in when a frame leaves. IPv4 only
     pub tx_offload_tcp: bool,
+    /// endpoint A also owns a UDP socket that queues one datagram for B this many microseconds
+    /// after connect() (nothing is delivered in between): two sockets of one interface then
+    /// wait for the same neighbor with their retry timers out of phase
+    pub aux_udp_us: Option<i64>,
 }
 
 impl Tcp2Cfg {
@@ -100,6 +104,7 @@ impl Tcp2Cfg {
             allow_oversleep: false,
             allow_set_keepalive: false,
             tx_offload_tcp: false,
+            aux_udp_us: None,
         }
     }
 }
@@ -206,6 +211,8 @@ pub struct End {
     pub invalid_seen: bool,
     /// the socket is CLOSED and refuses reads although the stream was not finished
     pub gave_up: bool,
+    /// auxiliary UDP socket (configurations with `aux_udp_us`)
+    pub aux: Option<SocketHandle>,
 }
 
 impl End {
@@ -297,6 +304,17 @@ impl Tcp2 {
         s.set_timeout(cfg.timeout_ms.map(Duration::from_millis));
         let mut sockets = SocketSet::new(vec![]);
         let h = sockets.add(s);
+        let aux = if cfg.aux_udp_us.is_some() && side == 0 {
+            use smoltcp::socket::udp;
+            let mut u = udp::Socket::new(
+                udp::PacketBuffer::new(vec![udp::PacketMetadata::EMPTY; 2], vec![0u8; 64]),
+                udp::PacketBuffer::new(vec![udp::PacketMetadata::EMPTY; 2], vec![0u8; 64]),
+            );
+            u.bind(9999).expect("udp bind");
+            Some(sockets.add(u))
+        } else {
+            None
+        };
         End {
             iface,
             dev,
@@ -313,6 +331,7 @@ impl Tcp2 {
             rx_cap: cfg.rx[side],
             invalid_seen: false,
             gave_up: false,
+            aux,
         }
     }
 
@@ -733,6 +752,14 @@ impl Harness for Tcp2 {
             e.sockets.get_mut::<tcp::Socket>(e.h).connect(cx, (remote, PORT_B), PORT_A).expect("connect");
         }
         t.settle();
+        if let Some(us) = cfg.aux_udp_us {
+            t.now += us;
+            let remote = t.ends[1].addr;
+            let e = &mut t.ends[0];
+            let u = e.sockets.get_mut::<smoltcp::socket::udp::Socket>(e.aux.unwrap());
+            u.send_slice(b"aux", (remote, 9)).expect("aux udp send");
+            t.settle();
+        }
         t.cached_deadline = t.earliest_deadline();
         t
     }
@@ -1111,6 +1138,9 @@ pub fn configs(tier: Tier) -> Vec<(Tcp2Cfg, u32)> {
     // devices that compute the TCP checksum on transmit; the stack must still verify on receive
     let offl = Tcp2Cfg { tx_offload_tcp: true, allow_corrupt: true, len: [50, 0], ..b("corrupt-tx-offload") };
     let offl_eth = Tcp2Cfg { tx_offload_tcp: true, allow_corrupt: true, eth: true, len: [47, 13], chunk: 9, nagle: false, allow_stall: false, ..b("corrupt-tx-offload-eth") };
+    // two sockets of one interface waiting for the same neighbor, retry timers 0.4 s out of phase
+    let twosock = Tcp2Cfg { aux_udp_us: Some(400_000), eth: true, len: [60, 20], allow_stall: false, ..b("eth-arp-aux-udp-socket") };
+    let twosock6 = Tcp2Cfg { aux_udp_us: Some(400_000), eth: true, v6: true, mtu: 1280, len: [60, 20], allow_stall: false, ..b("eth-v6-aux-udp-socket") };
     // both hosts suspended for 25 days at any point of the connection
     let over = Tcp2Cfg { allow_oversleep: true, len: [60, 20], ..b("oversleep-bidir") };
     let over_cubic = Tcp2Cfg { allow_oversleep: true, cc: 2, len: [120, 0], rx: [64, 256], tx: [256, 64], ..b("oversleep-cubic") };
@@ -1131,6 +1161,8 @@ pub fn configs(tier: Tier) -> Vec<(Tcp2Cfg, u32)> {
     }
     match tier {
         Tier::Quick => {
+            v.push((twosock, 3));
+            v.push((twosock6, 3));
             v.push((setka, 3));
             v.push((setka2, 2));
             v.push((offl, 2));
@@ -1169,6 +1201,8 @@ pub fn configs(tier: Tier) -> Vec<(Tcp2Cfg, u32)> {
             v.push((wrap40, 2));
         }
         Tier::Thorough => {
+            v.push((twosock, 4));
+            v.push((twosock6, 4));
             v.push((setka, 4));
             v.push((setka2, 3));
             v.push((offl, 3));
